@@ -704,7 +704,10 @@ func (l *Logger) Export() *HAR {
 	curr := l.tail
 	for curr != nil {
 		curr = curr.next
-		es = append(es, curr)
+		// Hand out a copy: a pending entry is completed later by RecordResponse,
+		// while the caller is still reading (e.g. serialising) what it was given.
+		e := *curr
+		es = append(es, &e)
 		if curr == l.tail {
 			break
 		}
